@@ -63,6 +63,19 @@ inline std::ostream& operator<<(std::ostream& os, const Ostr& v) {
   ++g_user_stream_calls;
   return os << "S(" << v.x << ',' << v.flag << ')';
 }
+// A pair type and a tuple type that have an operator<< of their own (found through the element type Uid, which has none):
+// "uses operator<< ... when one exists" also holds for them; element-wise printing is for pairs and tuples without one.
+struct Uid { int v; };
+inline bool operator==(const Uid& a, const Uid& b) { return a.v == b.v; }
+inline bool operator<(const Uid& a, const Uid& b) { return a.v < b.v; }
+inline std::ostream& operator<<(std::ostream& os, const std::pair<Uid, int>& p) {
+  ++g_user_stream_calls;
+  return os << "id#" << p.first.v << '*' << p.second;
+}
+inline std::ostream& operator<<(std::ostream& os, const std::tuple<Uid, int, Uid>& t) {
+  ++g_user_stream_calls;
+  return os << "ids<" << std::get<0>(t).v << '|' << std::get<1>(t) << '|' << std::get<2>(t).v << '>';
+}
 inline std::ostream& operator<<(std::ostream& os, const Ows& v) {
   ++g_user_stream_calls;
   return os << '[' << std::setw(5) << v.x << ']';
@@ -719,6 +732,28 @@ typedef cstr cstr2_t[2];
 typedef Opaque<9> op9x2_t[2];
 typedef int int23_t[2][3];
 typedef std::vector<int> vi2_t[2];
+template <> struct Tr<Uid> {   // no operator<<, no printer<>: bytes
+  static constexpr Kind kind = K_HEX;
+  static std::string name() { return "uid"; }
+  static bool null(const Uid&) { return false; }
+  static void fill(Uid& o, Tape& t) { o.v = gen_int<int>(t); }
+  static void ora(Out& o, const Uid& v) { o.hex(&v, sizeof v); }
+};
+template <> struct Tr<std::pair<Uid, int>> {
+  static constexpr Kind kind = K_STREAM;
+  static std::string name() { return "pair_with_own_operator<<"; }
+  static bool null(const std::pair<Uid, int>&) { return false; }
+  static void fill(std::pair<Uid, int>& o, Tape& t) { o.first.v = gen_int<int>(t); o.second = gen_int<int>(t); }
+  static void ora(Out& o, const std::pair<Uid, int>& v) { o.leaf(); ++o.user_streamed; o.lit("id#" + std::to_string(v.first.v) + "*" + std::to_string(v.second)); }
+};
+template <> struct Tr<std::tuple<Uid, int, Uid>> {
+  using Tu = std::tuple<Uid, int, Uid>;
+  static constexpr Kind kind = K_STREAM;
+  static std::string name() { return "tuple_with_own_operator<<"; }
+  static bool null(const Tu&) { return false; }
+  static void fill(Tu& o, Tape& t) { std::get<0>(o).v = gen_int<int>(t); std::get<1>(o) = gen_int<int>(t); std::get<2>(o).v = gen_int<int>(t); }
+  static void ora(Out& o, const Tu& v) { o.leaf(); ++o.user_streamed; o.lit("ids<" + std::to_string(std::get<0>(v).v) + "|" + std::to_string(std::get<1>(v)) + "|" + std::to_string(std::get<2>(v).v) + ">"); }
+};
 typedef std::vector<std::vector<int>> vvi2_t[2];
 typedef std::pair<cstr, std::list<up_t>> pcl2_t[2];
 
@@ -764,6 +799,12 @@ using NullableUser = TL<
     std::pair<UserP, vwid_t>,
     // depth 3
     std::vector<std::list<std::pair<cstr, widp_t>>>, std::map<int, std::tuple<np_t, std::vector<Handle>, OHandle>>>;
+
+// Pairs and tuples with an operator<< of their own, and plain ones of the same element type next to them (appended last).
+using StreamedComposites = TL<
+    Uid, std::pair<Uid, int>, std::tuple<Uid, int, Uid>, std::pair<int, Uid>, std::tuple<Uid, int>,
+    std::vector<std::pair<Uid, int>>, std::list<std::tuple<Uid, int, Uid>>, std::pair<std::pair<Uid, int>, std::tuple<Uid, int, Uid>>,
+    std::map<int, std::pair<Uid, int>>, std::tuple<std::pair<Uid, int>, cstr, std::pair<int, Uid>>>;
 
 // =====================================================================================
 // End-to-end sample: mock functions taking / returning some of the types
@@ -1136,6 +1177,7 @@ static void build_table() {
   add_opaque(std::make_index_sequence<40>{});
   g_first_nullable_user = static_cast<int>(g_types.size());
   add_types(NullableUser{});
+  add_types(StreamedComposites{});
 }
 
 }  // namespace s
